@@ -78,7 +78,7 @@ impl Property for C15 {
     fn runs(&self, tier: Tier) -> u64 {
         match tier {
             Tier::Quick => 800_000,
-            Tier::Thorough => 25_000_000,
+            Tier::Thorough => 12_000_000,
         }
     }
     fn gen(&self, run_seed: u64, _tier: Tier) -> Value {
